@@ -549,6 +549,20 @@ def main_check(chk, argv):
     if not pr["ok"]:
         broken += pr["broken"] or [prop + " (proof check failed)"]
         log("PROOF SIDE BROKEN:\n" + pr["log"][-1500:])
+    coqchk_report = None
+    if tier == "thorough" and pr["ok"]:
+        # independent checker: re-checks the compiled property file and everything it depends on
+        try:
+            cp = subprocess.run(["coqchk", "-o", "-silent", "-Q", "theories", "HT", "HT.Props.%s" % prop], cwd=COQ,
+                                stdout=subprocess.PIPE, stderr=subprocess.STDOUT, text=True, timeout=1800)
+            m = re.search(r"\* Axioms:(.*?)\n\s*\n\* Constants", cp.stdout, re.S)
+            axs = (m.group(1).strip() if m else "unparsed")
+            coqchk_report = {"exit": cp.returncode, "axioms": axs}
+            if cp.returncode != 0 or axs != "<none>":
+                broken.append("coqchk: exit %d, axioms: %s" % (cp.returncode, axs[:300]))
+        except subprocess.TimeoutExpired:
+            coqchk_report = {"exit": "timeout"}
+            notes.append("coqchk timed out")
     n_thm = len(pr["theorems"])
     n_thm_ok = sum(1 for t in pr["theorems"] if t[1]) if pr["ok"] or pr["theorems"] else 0
 
@@ -559,7 +573,13 @@ def main_check(chk, argv):
         broken.append("harness does not build against /repo (correspondence unavailable)")
         fams = []
     else:
-        fams = chk.families(rng, tier)
+        try:
+            fams = chk.families(rng, tier)
+        except Exception as e:  # a generator that cannot cope with the implementation's behaviour is a broken tie
+            import traceback
+            log(traceback.format_exc()[-1500:])
+            broken.append("case generation failed against the current /repo: %r" % (e,))
+            fams = []
 
     fam_stats, all_cases, samples = [], [], []
     evaluations = nontrivial = 0
@@ -673,6 +693,7 @@ def main_check(chk, argv):
             "obligations": n_thm + n_fam,
             "discharged": (n_thm_ok if not bad else 0) + n_fam_ok,
             "theorems": [{"name": t[0], "closed": t[1], "axioms": t[2]} for t in pr["theorems"]],
+            "coqchk": coqchk_report,
             "checker_cmd": pr["cmd"] + " ; coqc (vm_compute) over generated cases_*.v shards ; "
                            "cargo build --offline in harness/ (path deps on /repo)",
             "trusted_base": [
